@@ -162,10 +162,15 @@ func (r *relayItems) sendIfLive(id uint32, ch chan<- *Frame, f *Frame) (queued, 
 	}
 }
 
-// Add adds a relay item.
-func (r *relayItems) Add(id uint32, item relayItem) {
+// Add adds a relay item and starts its timeout. Both happen with the lock held:
+// as soon as the item can be found, a frame that ends the call may arrive (a peer
+// can send a terminal frame for an id before it has seen the request), and Get
+// stops the timeout and Delete releases it - which must not happen to a timer
+// that is started only afterwards.
+func (r *relayItems) Add(id uint32, item relayItem, ttl time.Duration, isOriginator bool) {
 	r.Lock()
 	r.items[id] = item
+	item.timeout.Start(ttl, r, id, isOriginator)
 	r.Unlock()
 }
 
@@ -698,8 +703,7 @@ func (r *Relayer) addRelayItem(isOriginator bool, id, remapID uint32, destinatio
 		items = r.outbound
 	}
 	item.timeout = r.timeouts.Get()
-	items.Add(id, item)
-	item.timeout.Start(ttl, items, id, isOriginator)
+	items.Add(id, item, ttl, isOriginator)
 	return item
 }
 
